@@ -447,6 +447,8 @@ func (fr *Frame) loopHeader(b, prev *ssa.BasicBlock, lrt *loopRT) {
 			lrt.dec0 = asTerm(s.evalClauseValue(lc.Decreases, args(), s.entry))
 		}
 		lrt.logBase = len(s.log)
+		// position of the LAST cut loop entered: a count over a range that starts before it would span hidden iterations
+		s.cutLoopAt = len(s.log)
 		lrt.headSnap = s.snapshot()
 		return
 	}
